@@ -117,17 +117,6 @@ example : fragment [({ ts := 1000, res := [97], pass := 1, block := 0, complete 
 
 /-! ## 5. L1 → L0: the search of a fresh searcher -/
 
-/-- the position the index delivers for `begin` (`firstHit`) splits the retained items into those
-    before `begin` and those not before it.  This is the writer-side obligation that fails for the
-    unindexed head of the log (`first_second_witness`, `orphan_head_witness`). -/
-def IndexCorrect (bs : Nat) (fs : Dir) : Prop :=
-  match firstHit bs fs with
-  | none => ∀ it ∈ retained fs, it.ts / 1000 < bs
-  | some (d, off) => ∀ pre f rest, fs = pre ++ f :: rest → d = f :: rest →
-      (∀ it ∈ retained pre, it.ts / 1000 < bs) ∧
-      ∃ j, off = (serialise (f.lines.take j)).length ∧ (∀ it ∈ f.lines.take j, it.ts / 1000 < bs) ∧
-        ∀ it ∈ f.lines.drop j ++ retained rest, bs ≤ it.ts / 1000
-
 theorem filter_nil_of_lt (l : List Item) (b e : Nat) (res : Bytes) (h : ∀ it ∈ l, it.ts / 1000 < b / 1000) :
     l.filter (fun it => inRange b e it && resMatch res it) = [] := by
   rw [List.filter_eq_nil_iff]
@@ -181,6 +170,50 @@ theorem find_fresh_partial (fs : Dir) (b e : Nat) (res : Bytes)
     have := hdrop it hit
     simp [inRange, this]
 
+/-- every retained item not before `begin` belongs to a second that has an index entry in a retained
+    file.  This excludes exactly the regions of `metriclog-first-second` (items of the creation second)
+    and `metriclog-orphan-head` (a second continued after a roll whose index entry went with a removed
+    file): a second gets its entry when the writer first sees it (`inv_addIndex`). -/
+def Covered (fs : Dir) (b : Nat) : Prop :=
+  ∀ x ∈ retained fs, b / 1000 ≤ x.ts / 1000 → ∃ e ∈ allEnts fs, e.1 = x.ts / 1000
+
+/-- **search_complete_sorted_nodup, partial, end to end**: for every creation time, every size / count
+    limit, every accepted write history (any number of size rolls, day rolls and removals) a *fresh*
+    searcher's `FindByTimeAndResource` returns exactly the retained items in range with the resource,
+    in writing (= timestamp) order, each once — provided the query does not reach into the unindexed
+    head of the log (`Covered`).  (`hsize`: offsets fit the 8-byte index field.) -/
+theorem search_complete_partial (now maxSize maxFiles : Nat) (hnow : now / 1000 < 2 ^ 64)
+    (hist : List (Nat × List Item)) (hv : HistValid hist) (b e : Nat) (res : Bytes)
+    (hsize : ∀ f ∈ (runWrites (Writer.new now maxSize maxFiles) hist).files, f.data.length < 2 ^ 64)
+    (hcov : Covered (runWrites (Writer.new now maxSize maxFiles) hist).files b) :
+    (find (runWrites (Writer.new now maxSize maxFiles) hist).files {} b e res).2
+      = specFind (retained (runWrites (Writer.new now maxSize maxFiles) hist).files) b e res := by
+  have hinv := inv_runWrites _ hist (inv_new now maxSize maxFiles)
+  have hside := runWrites_side (Writer.new now maxSize maxFiles) hist hv
+    (by intro f hf; simp only [Writer.new, Writer.roll, List.length_nil, List.drop_nil, List.nil_append,
+          List.mem_singleton] at hf; subst hf; simp)
+    (by simpa [Writer.new] using hnow)
+  refine find_fresh_partial _ b e res ?_ hinv.ord.2.1 (indexCorrect_of_inv _ hinv.ents hinv.sorted _ hcov)
+  intro f hf
+  refine ⟨hinv.ok f hf, ?_, hside.1 f hf⟩
+  intro en hen
+  obtain ⟨pre, rest, hsplit⟩ := List.append_of_mem hf
+  have hen' : en ∈ allEnts (runWrites (Writer.new now maxSize maxFiles) hist).files := by
+    rw [hsplit, allEnts_append, allEnts_cons]; simp [hen]
+  refine ⟨lt_of_le_of_lt (hinv.bound en hen') hside.2, ?_⟩
+  obtain ⟨j, _, hoff, _, _⟩ := EntsOK_split [] pre f rest (hsplit ▸ hinv.ents) en hen
+  have h1 := serialise_take_length_le f.lines j
+  have h2 := hsize f hf
+  rw [(hinv.ok f hf).1] at h2
+  omega
+
+/-- the hypothesis `Covered` is satisfiable with a non-empty answer (second 2 of `dirFirst` below) -/
+example : Covered
+    (runWrites (Writer.new 1000 100000 4) [(1000, [⟨0, [97], 1, 0, 0, 0, 5, 0, 0, 0⟩]), (2000, [⟨0, [97], 2, 0, 0, 0, 5, 0, 0, 0⟩])]).files
+    2000 := by
+  unfold Covered
+  decide
+
 /-! ## 6. `search_total`: searching never fails, whatever the bytes are -/
 
 /-- `find` / `findFrom` are total functions of arbitrary directory contents (any bytes in the data and
@@ -191,6 +224,13 @@ theorem search_total (fs : Dir) (c : Cache) (b e m : Nat) (res : Bytes) (kd ki :
     (∃ c' xs, find (cutIdx (cutData fs kd) ki) c b e res = (c', xs)) ∧
     (∃ c' xs, findFrom (cutIdx (cutData fs kd) ki) c b m = (c', xs)) :=
   ⟨⟨_, _, rfl⟩, ⟨_, _, rfl⟩⟩
+
+/-- … and whatever the cache state, the cut offsets and the bytes are, every item `FindByTimeAndResource`
+    returns was parsed from a line (or, by `read_after_cut`, the one fragment) of a retained data file:
+    nothing is invented by the search itself -/
+theorem search_after_cut_only_file_items (fs : Dir) (c : Cache) (b e : Nat) (res : Bytes) (kd ki : Nat) :
+    ∀ x ∈ (find (cutIdx (cutData fs kd) ki) c b e res).2, FromFiles (cutIdx (cutData fs kd) ki) x :=
+  find_fromFiles _ c b e res
 
 /-! ## 7. what the pinned code violates (known findings, `known/C17.jsonl`) -/
 
@@ -238,5 +278,50 @@ theorem orphan_head_witness :
       [{ mk 97 2 5 with ts := 2500 }, { mk 98 2 5 with ts := 2500 }, { mk 97 3 5 with ts := 3000 }] ∧
     (find dirOrphan {} 2000 9000 []).2 = [{ mk 97 3 5 with ts := 3000 }] := by
   decide
+
+/-! ## 8. the full statements (not provable for the pinned code: refuted by the witnesses above) -/
+
+/-- the property's first sentence for one query of a fresh searcher, without the `Covered` restriction -/
+def search_complete_sorted_nodup_statement : Prop :=
+  ∀ (now maxSize maxFiles : Nat) (hist : List (Nat × List Item)) (b e : Nat) (res : Bytes),
+    0 < maxSize → 0 < maxFiles → now / 1000 < 2 ^ 64 → HistValid hist →
+    (find (runWrites (Writer.new now maxSize maxFiles) hist).files {} b e res).2
+      = specFind (retained (runWrites (Writer.new now maxSize maxFiles) hist).files) b e res
+
+theorem search_complete_sorted_nodup_statement_fails : ¬ search_complete_sorted_nodup_statement := by
+  intro h
+  have hv : HistValid [(1000, [mk 97 1 5]), (2000, [mk 97 2 5])] := by
+    intro p hp
+    simp only [List.mem_cons, List.not_mem_nil, or_false] at hp
+    rcases hp with rfl | rfl <;> refine ⟨by norm_num, ?_⟩ <;> intro it hit <;>
+      simp only [List.mem_singleton] at hit <;> subst hit <;> constructor <;> simp [mk, plainB, BAR, LF, CR]
+  have h1 := h 1000 100000 4 [(1000, [mk 97 1 5]), (2000, [mk 97 2 5])] 1000 9000 [] (by norm_num) (by norm_num) (by norm_num) hv
+  have h2 := first_second_witness
+  unfold dirFirst at h2
+  rw [h2.1, h2.2] at h1
+  exact absurd h1 (by decide)
+
+/-- … for any sequence of queries on **one** searcher (the cache is threaded through) -/
+def search_any_query_sequence_statement : Prop :=
+  ∀ (now maxSize maxFiles : Nat) (hist : List (Nat × List Item)) (c : Cache) (b e : Nat) (res : Bytes),
+    0 < maxSize → 0 < maxFiles → HistValid hist →
+    Covered (runWrites (Writer.new now maxSize maxFiles) hist).files b →
+    (∃ b' e' res' c0, c = (find (runWrites (Writer.new now maxSize maxFiles) hist).files c0 b' e' res').1) →
+    (find (runWrites (Writer.new now maxSize maxFiles) hist).files c b e res).2
+      = specFind (retained (runWrites (Writer.new now maxSize maxFiles) hist).files) b e res
+
+/-- after a cut of the last data file at any byte only written items are returned -/
+def only_written_statement : Prop :=
+  ∀ (its : List Item) (k : Nat), (∀ it ∈ its, Valid it) → ∀ x ∈ itemsFrom ((serialise its).take k) 0, x ∈ its
+
+theorem only_written_statement_fails : ¬ only_written_statement := by
+  intro h
+  have hv : ∀ it ∈ [({ mk 97 3 1234 with ts := 2000 } : Item)], Valid it := by
+    intro it hit
+    simp only [List.mem_singleton] at hit
+    subst hit
+    constructor <;> simp [mk, plainB, BAR, LF, CR]
+  have := h [{ mk 97 3 1234 with ts := 2000 }] 37 hv { mk 97 3 12 with ts := 2000 } (by decide)
+  exact absurd this (by decide)
 
 end Sentinel.C17
